@@ -45,7 +45,7 @@ GUARD = 16
 
 def setup(w):
     _S["tmp"] = tempfile.mkdtemp(prefix="xvc16_")
-    _S["cpu"] = {"cpu_serial": [xo.ContextCpu()], "cpu_openmp": [xo.ContextCpu(omp_num_threads="auto"), xo.ContextCpu(omp_num_threads=2)]}
+    _S["cpu"] = {"cpu_serial": [xo.ContextCpu()], "cpu_openmp": [xo.ContextCpu(omp_num_threads="auto"), xo.ContextCpu(omp_num_threads=2), xo.ContextCpu(omp_num_threads=1)]}
     for l in _S["cpu"].values():
         for c in l:
             c._compile_kernels_info = False
@@ -99,7 +99,10 @@ def gen_source(rng, kname, folder, nested=False):
             note = rng.choice(["", "", " // marker for the self test", " /* c */ // x"])
             if note:
                 meta["commented_directives"] = meta.get("commented_directives", 0) + 1
-            L.append(f"  flags[0] |= {BIT[t]};{note} //only_for_context {t}")
+            lead = rng.choice(["", "", "/* gpu */ ", "/*x*/ /* two words */ "])
+            if lead:
+                meta["commented_directives"] = meta.get("commented_directives", 0) + 1
+            L.append(f"  {lead}flags[0] |= {BIT[t]};{note} //only_for_context {t}")
             meta["in_bits" if inside else "out_bits"][t] |= BIT[t]
         else:
             ts = rng.sample(TARGETS, 2)
